@@ -635,6 +635,14 @@ def rangeMapFrom (bounded oc : Bool) (rs : List Um.Proto.Range) : RangeMapRes :=
       ⟨.panic "capacity overflow", 0, mx + usizeMod - mn + 1, 0⟩
   | _, _ => mk 0 0
 
+/-- iterations of the fill loop of `SlotMapData::new` (`src/proxy/slot.rs`) over the untagged ranges of the local
+nodes / the ranges of the peers: `start > end` is skipped, the loop leaves at `s >= SLOT_NUM` (`bounded`) -/
+def slotMapSteps (bounded : Bool) (rs : List Um.Proto.Range) : Nat :=
+  (rs.map fun r =>
+    if r.s > r.e then 0
+    else if bounded then (if r.s ≥ SLOT_NUM then 1 else min r.e SLOT_NUM - r.s + 1)
+    else r.e - r.s + 1).sum
+
 /-- the range list as `RangeMap::from` receives it: `textual` = the command was not compressed -/
 def rangesSeen (compressedCompact textual : Bool) (rs : List Um.Proto.Range) : List Um.Proto.Range :=
   if textual || compressedCompact then Um.Proto.compact rs else rs
